@@ -36,9 +36,11 @@ def check_artefact(ctx, a, stats):
     if eg.signed_area(wall) < 0:
         wall = wall[::-1]
     nf = nfine_of(a)
+    ref = gu.ref_for(a)
     # the wall point is the intersection of the wall with a chord of the fine contour, pulled
     # back onto the flux surface: discretisation limited (worst observed at Nfine=50: 5.5e-6 m)
-    wtol = 5e-5 * (50.0 / nf) ** 2
+    wtol0 = 2e-4 * (50.0 / nf) ** 2
+    wtol = wtol0
 
     def V(what, detail):
         detail.update(config=a.config["label"])
@@ -91,6 +93,20 @@ def check_artefact(ctx, a, stats):
                         continue
                     d = eg.dist_point_polyline(p, wall_in)
                     stats["target_points"] += 1
+                    # the wall point is the intersection of the wall with a chord of the fine
+                    # contour (spacing h = contour length / Nfine), pulled back to the surface:
+                    # off the wall by up to the sagitta kappa*h^2/8 of that chord
+                    row = np.column_stack([R[loc][i, :], Z[loc][i, :]])
+                    Lc = float(np.sum(np.hypot(*np.diff(row, axis=0).T)))
+                    gR_, gZ_ = ref.grad(p[0], p[1])
+                    hRR_, hZZ_, hRZ_ = ref.hess(p[0], p[1])
+                    gm_ = float(np.hypot(gR_, gZ_))
+                    tR_, tZ_ = -gZ_ / gm_, gR_ / gm_
+                    kap_ = abs(float(hRR_ * tR_ * tR_ + 2 * hRZ_ * tR_ * tZ_ + hZZ_ * tZ_ * tZ_)) / gm_
+                    # ... and, when the contour had to be extrapolated to reach the wall (no guard
+                    # cells), by the accuracy of that extrapolation: worst observed 8.8e-5 m at
+                    # Nfine=50 (0.3 % of the adjacent cell); floor 2e-4*(50/Nfine)^2
+                    wtol = max(3.0 * kap_ * (Lc / nf) ** 2 / 8.0 + 2e-6, wtol0)
                     ctx.setmax("worst_target_distance_over_tol", d / wtol)
                     if d > wtol:
                         V("target point is not on the wall | %s%s" % (loc, " (separatrix)" if is_sep else ""),
@@ -107,7 +123,7 @@ def check_artefact(ctx, a, stats):
         j_hi = ny - myg if upper_wall else ny
         for i in range(nx):
             for j in range(ny + 1):
-                near = dist[i, j] <= (wtol if not orth else np.inf if j in (j_lo, j_hi) else 0.0)
+                near = dist[i, j] <= (wtol0 if not orth else np.inf if j in (j_lo, j_hi) else 0.0)
                 stats["faces"] += 1
                 if j_lo < j < j_hi:
                     if inside[i, j] < 0 and not near:
